@@ -757,7 +757,10 @@ func runC04(c *Ctx, r *Report) {
 		var req ssa.Value
 		for v := range backSlice(call.Call.Args[1], nil) {
 			if phi, ok := v.(*ssa.Phi); ok && isIntType(phi.Type()) && derivesFromField(phi, ptrF) {
-				req = phi
+				// (the slice is a map: among several candidates the first in the source is taken, every run)
+				if req == nil || phi.Pos() < req.Pos() {
+					req = phi
+				}
 			}
 		}
 		if req == nil {
